@@ -60,6 +60,9 @@ SNAP_MAP = [
     (r"marginfi_type_crate\|.*\|(i80_from_i128_checked|scale_supplies|liq_to_col_ratio|col_to_liq_ratio)\|", ["C20"]),
     (r"marginfi_type_crate\|\|(milli_to_u32|centi_to_u32|basis_to_u32|u32_to_milli|u32_to_centi|u32_to_basis|make_points)\|", ["C18", "C13"]),
     (r"\|HealthCache\|set_(engine_ok|healthy|oracle_ok)\|", ["C04"]),
+    # venue CPI wrappers (which accounts a token transfer / venue call is wired to, which PDA signs) and flat-fee transfers
+    (r"marginfi\|\w*\|cpi_\w+\|marginfi::instructions::(kamino|drift|solend)::", ["C08"]),
+    (r"marginfi\|\w*\|(transfer_flat_fee|transfer_fee)\|marginfi::instructions::", ["C19"]),
 ]
 
 
@@ -85,7 +88,9 @@ def candidates(prog):
         f = prog.fns[k]
         if f.info["kind"] == "Closure" or f.info["crate"] not in ("marginfi", "marginfi_type_crate", "kamino_mocks", "drift_mocks", "solend_mocks"):
             continue
-        if "::instructions::" in k or "::tests::" in k:
+        if "::tests::" in k:
+            continue
+        if "::instructions::" in k and not re.match(r"(cpi_\w+|transfer_flat_fee|transfer_fee)$", f.name):
             continue
         fid = fn_id(f)
         if props_of(fid):
@@ -99,7 +104,7 @@ def build(prog):
             sig = leaf_sig(prog, f)
         except Exception:
             continue
-        if sig:
+        if sig and len(sig) <= 8 and sum(len(x) for x in sig) <= 1500:
             snap.setdefault(fid, sig)
     return snap
 
